@@ -24,12 +24,12 @@ Definition by_grant_assertion (i : input) : bool :=
   match i_endpoint i, i_grant i with EToken, GBearer => true | _, _ => false end.
 
 Definition model (i : input) : observed :=
-  let other := names_other_client (i_pres i) && negb (by_grant_assertion i) in
+  let other := if by_grant_assertion i then None else names_other_client (i_pres i) in
   match authenticate (i_router i) (i_endpoint i) (i_cfg i)
-          (if other then victim_reg else i_reg i) (eff_pres (i_pres i)) (i_grant i)
-          (own_artefact (i_pres i)) with
+          (match other with Some vm => victim_reg vm | None => i_reg i end)
+          (eff_pres (i_pres i)) (i_pl i) (i_grant i) (own_artefact (i_pres i)) with
   | Granted => ORes S2 ENone (issues_token (i_endpoint i)) (has_effect (i_endpoint i))
-                    (if other then WOther else WSelf)
+                    (match other with Some _ => WOther | None => WSelf end)
   | Refused s e => ORes s e false false WNone
   | Inactive => ORes S2 ENone false false WNone
   end.
@@ -39,11 +39,11 @@ Definition model (i : input) : observed :=
 Definition presents_right_secret (p : pres) : bool :=
   match p with
   | PBasic SRight _ | PPost SRight | PBoth SRight _ | PBoth _ SRight => true
-  | PXBasic | PXPost | PXPostId => true   (* X's secret is in the request *)
+  | PXBasic _ | PXPost _ | PXPostId _ | PXDup _ => true   (* X's secret is in the request *)
   | _ => false
   end.
 Definition presents_ok_assertion (p : pres) : bool :=
-  match p with PAssert AOk | PXAssert => true | _ => false end.
+  match p with PAssert AOk | PXAssert _ => true | _ => false end.
 Definition identifies (p : pres) : bool := match p with PNone => false | _ => true end.
 
 (* "authenticated in the way it is registered" (Appendix D) *)
@@ -108,16 +108,26 @@ Definition refusal_shape (ep : endpoint) (s : stclass) (e : ecode) (tok act : bo
   && negb tok && negb act && match w with WNone => true | _ => false end
   && match ep with EToken => oauth_code e | _ => true end.
 
-(* the request carries the victim's client id in the slot that names the client (Basic before
-   form), next to a secret that is not the victim's *)
+(* the request carries the id of a second client Y, registered with that method *)
+Definition victim_of (p : pres) : option amethod :=
+  match p with
+  | PXBasic vm | PXAssert vm | PXPost vm | PXPostId vm | PXDup vm => Some vm
+  | _ => None
+  end.
+(* ... in the slot that names the client (Basic before form; of two client_id values the last) *)
 Definition names_other (p : pres) : bool :=
-  match p with PXPost | PXPostId => true | _ => false end.
+  match p with PXPost _ | PXPostId _ | PXDup _ => true | _ => false end.
 
-(* acting for another client than X: the victim is a known confidential client registered for
-   every grant whose own credential is never presented, so the only thing a request may obtain
-   in its name is what needs no authentication at all - a device code, when the request names it *)
+(* acting for another client than X must be justified by THAT client's registration and
+   credential. No credential of Y is ever in the request, Y is merely named: so exactly what the
+   property grants a client that only identifies itself (a public Y on the grants that admit
+   public clients and on revocation; a device code for any known Y registered for the grant) *)
 Definition other_justified (i : input) : bool :=
-  match i_endpoint i with EDeviceAuthz => names_other (i_pres i) | _ => false end.
+  match victim_of (i_pres i) with
+  | Some vm => justified (mkInput (i_router i) (i_endpoint i) (i_cfg i) (victim_reg vm) PIdOnly
+                                  (i_grant i) (i_pl i))
+  | None => false
+  end.
 
 (* 2xx: justified by the registration and credential of the client the request acted for *)
 Definition spec (i : input) (o : observed) : bool :=
